@@ -272,8 +272,97 @@ func typ0(d string) string {
 	return "integer"
 }
 
+// dropIndexedNames are the hand-built lists that put a change with a MULTI-STATEMENT reverse (DROP TABLE
+// of a table with secondary indexes: reverse = CREATE TABLE + n × CREATE INDEX on SQLite / PostgreSQL) next
+// to an irreversible change — "reversible" must be decided per change, not by counting reverse statements.
+var dropIndexedNames = []string{"dropidx+drop-schema", "dropidx+enum-add-value", "dropidx+rebuild", "dropidx+unnamedcheck",
+	"drop-schema+dropidx", "dropidx*2+rebuild", "dropidx*2+enum-add-value*2", "dropidx+addtable"}
+
+func dropIndexedChanges(d, spec string) ([]schema.Change, bool) {
+	sn, ityp, styp := "s1", "int", "varchar(20)"
+	switch d {
+	case "postgres":
+		sn, ityp, styp = "public", "integer", "text"
+	case "sqlite":
+		sn, ityp, styp = "main", "integer", "text"
+	}
+	sc := schema.New(sn)
+	indexed := func(name string) *schema.Table {
+		t := schema.NewTable(name).SetSchema(sc)
+		id := schema.NewIntColumn("id", ityp)
+		t.AddColumns(id)
+		t.SetPrimaryKey(schema.NewPrimaryKey(id))
+		for _, cn := range []string{"a", "b", "c", "d", "e"} {
+			c := schema.NewNullStringColumn(cn, styp)
+			t.AddColumns(c)
+			t.AddIndexes(schema.NewIndex(name + "_" + cn).AddColumns(c))
+		}
+		return t
+	}
+	keep := func() *schema.Table {
+		t := schema.NewTable("c17_keep").SetSchema(sc)
+		id := schema.NewIntColumn("id", ityp)
+		t.AddColumns(id, schema.NewNullStringColumn("v", styp))
+		t.SetPrimaryKey(schema.NewPrimaryKey(id))
+		return t
+	}
+	var out []schema.Change
+	for _, part := range strings.Split(spec, "+") {
+		n := 1
+		if i := strings.IndexByte(part, '*'); i > 0 {
+			fmt.Sscan(part[i+1:], &n)
+			part = part[:i]
+		}
+		for k := 0; k < n; k++ {
+			sfx := fmt.Sprint(k)
+			switch part {
+			case "dropidx":
+				out = append(out, &schema.DropTable{T: indexed("c17_gone" + sfx)})
+			case "addtable":
+				out = append(out, &schema.AddTable{T: indexed("c17_new" + sfx)})
+			case "drop-schema":
+				if d == "sqlite" {
+					return nil, false
+				}
+				out = append(out, &schema.DropSchema{S: schema.New("c17_other" + sfx)})
+			case "enum-add-value":
+				if d != "postgres" {
+					return nil, false
+				}
+				from := &schema.EnumType{T: "c17_enum" + sfx, Values: []string{"a", "b"}, Schema: sc}
+				to := &schema.EnumType{T: "c17_enum" + sfx, Values: []string{"a", "b", "c"}, Schema: sc}
+				out = append(out, &schema.ModifyObject{From: from, To: to})
+			case "rebuild":
+				if d != "sqlite" {
+					return nil, false
+				}
+				t := keep()
+				t.Name += sfx
+				from := t.Columns[1]
+				to := schema.NewNullIntColumn("v", "integer")
+				t.Columns[1] = to
+				out = append(out, &schema.ModifyTable{T: t, Changes: []schema.Change{&schema.ModifyColumn{From: from, To: to, Change: schema.ChangeType}}})
+			case "unnamedcheck":
+				if d == "sqlite" {
+					return nil, false
+				}
+				t := keep()
+				t.Name += sfx
+				out = append(out, &schema.ModifyTable{T: t, Changes: []schema.Change{&schema.AddCheck{C: schema.NewCheck().SetExpr("(id > 0)")}}})
+			default:
+				return nil, false
+			}
+		}
+	}
+	return out, true
+}
+
 // handChanges builds the named change list over a fresh graph of the model. ok=false: not applicable.
 func handChanges(d string, m *dmodel.Model, name string) (changes []schema.Change, ok bool, err error) {
+	if strings.HasPrefix(name, "dropidx") || strings.HasPrefix(name, "drop-schema+dropidx") {
+		ch, ok := dropIndexedChanges(d, name)
+		return ch, ok, nil
+	}
 	if strings.HasPrefix(name, "colmod:") {
 		if d == "sqlite" {
 			return nil, false, nil
@@ -1218,6 +1307,18 @@ func evalFlagCase(c *rt.Ctx, w *rt.W, cs FCase) {
 		if !p.Reversible {
 			c.Violation("flag|"+cs.label()+"|reversible-clauses-reported-irreversible|"+strings.TrimPrefix(cs.Shape, "hand:pair:"),
 				"a ModifyTable of reversible clauses only is reported irreversible", cs, map[string]any{"plan": planText(p)})
+		}
+	}
+	if sp := strings.TrimPrefix(cs.Shape, "hand:"); strings.HasPrefix(sp, "dropidx") || strings.HasPrefix(sp, "drop-schema+dropidx") {
+		c.Count("multi-statement-reverse-next-to-irreversible-change:"+cs.label(), 1)
+		irr := sp != "dropidx+addtable"
+		switch {
+		case irr && p.Reversible:
+			c.Violation("flag|"+cs.label()+"|irreversible-change-hidden-by-multi-statement-reverse",
+				"the list "+sp+" holds an irreversible change next to a DROP TABLE with a multi-statement reverse and is reported reversible", cs,
+				map[string]any{"plan": planText(p)})
+		case !irr && !p.Reversible:
+			c.Violation("flag|"+cs.label()+"|reversible-changes-reported-irreversible|"+sp, "a list of reversible changes only is reported irreversible", cs, map[string]any{"plan": planText(p)})
 		}
 	}
 	if strings.HasPrefix(cs.Shape, "hand:colmod:") {
